@@ -1444,18 +1444,18 @@ def as_index(t):
     return None
 
 
-def renumbered_builder(ctx, rule, body, g, index_of=None, what=""):
+def renumbered_builder(ctx, rule, body, g, index_of=None, what="", outer="derived::build_sym_using_vs", acc="DSym::v", ret=None):
     """a symbol rebuilt under a renumbering src2img / img2src of its chambers (canonical form, subsymbol):
         op'(i, d) = src2img[ ds.op(I(i), img2src[d]) ],   v'(i, d) = ds.v(I(i), I(i + 1), img2src[d])
     with the two maps inverse to each other; I = identity, or indices[.] for a subsymbol.  Checks the two closures handed to build_set /
     build_sym_using_vs.  -> (src2img term, img2src term) or None"""
     b = body
     ds = ("param", 1, b.debug.get(1, ""))
-    r = strip(norm(b.local_origin(0), g))
+    r = strip(norm(b.local_origin(0), g)) if ret is None else ret
     bad = None
     maps = None
-    if not (is_call(r, "derived::build_sym_using_vs") and is_call(strip(r[2][0]), "derived::build_set")):
-        bad = "not build_sym_using_vs(build_set(..), ..)"
+    if not (is_call(r, outer) and is_call(strip(r[2][0]), "derived::build_set")):
+        bad = "not %s(build_set(..), ..)" % outer.split("::")[-1]
     else:
         bs = strip(r[2][0])
         i_, d_ = ("local", -1, "i"), ("local", -2, "d")
@@ -1481,7 +1481,7 @@ def renumbered_builder(ctx, rule, body, g, index_of=None, what=""):
                 v = unov_deep(strip(vr)) if vr is not None else None
                 if img2src == src2img:
                     bad = "op'(i, d) maps into and out of the SAME table (%s): the renumbering is not inverted" % show(img2src, 1)[:30]
-                elif not (v is not None and is_call(v, "DSym::v") and strip(v[2][0]) == ds and unov_deep(strip(v[2][1])) == I(i_) and
+                elif not (v is not None and is_call(v, acc) and strip(v[2][0]) == ds and unov_deep(strip(v[2][1])) == I(i_) and
                           unov_deep(strip(v[2][2])) == unov_deep(I(("binop", "Add", i_, ("int", 1)))) and as_index(v[2][3]) and as_index(v[2][3])[0] == img2src and strip(as_index(v[2][3])[1]) == d_):
                     bad = "v'(i, d) is not ds.v(%s, img2src[d]): %s" % ("indices[i], indices[i + 1]" if index_of else "i, i + 1", show(v, 1)[:80] if v else None)
                 else:
